@@ -28,7 +28,7 @@ func trapScript(kind int, t uint16) string {
 	case 1:
 		extra = "  set_xreg((get_xreg() + 1) % 256)\n"
 	case 2:
-		extra = "  set_accu(255 - c)\n  if c % 2 == 1 then set_flags('N-----ZC') else set_flags('-V------') end\n"
+		extra = "  set_accu(255 - c)\n  if c % 2 == 1 then set_flags('CZN') else set_flags('V') end\n"
 	case 3:
 		extra = fmt.Sprintf("  write_byte(%d, c)\n  write_byte(0x3DFE, read_byte(%d))\n", (t+1)&0xFFFF, t)
 	case 4:
@@ -257,6 +257,28 @@ func (c *trapCase) run(dir string) string {
 	}
 	p := cpu.New6502(model)
 	p.Init(base)
+	if c.base == "Linear64K" && c.path == "B" && c.t >= 0x0400 {
+		// the run/profile path on a machine that already carries a port layer and a coprocessor layer (other pages)
+		cfg := emuconfig.DefaultConfig()
+		cfg.MemSpec = "Linear64K"
+		if c.model == 1 {
+			cfg.Model = "65C02"
+		}
+		cfg.IoMask = 0x02
+		cfg.IoAddrConfig = map[uint8]string{0xF0: "stdout:bin"}
+		cfg.F256MCoprocFlags = 5
+		cfg.F256MCoprocBase = 0x0380
+		pc, err := cfg.NewCpu()
+		if err != nil {
+			panic(err)
+		}
+		for a, v := range c.init {
+			pc.Mem.Store(a, v)
+		}
+		p = pc
+		base = pc.Mem
+		count("trap.B.layered")
+	}
 	bin := writeFile(dir, "trap.bin", prg(trapProgAt, c.code...))
 	script := writeFile(dir, "trap.lua", []byte(trapScript(c.kind, c.t)))
 	var err error
